@@ -282,6 +282,7 @@ def run(prog, chk):
     stem_extension_cut(prog, chk, "C19.k")
     read_all_table(prog, chk, "C19.l")
     extension_cut_needs_dot(prog, chk, "C19.m")
+    directory_test_follows_links(prog, chk, "C19.n")
 
 
 def copy_destination_flags(prog, chk, rid):
@@ -848,3 +849,25 @@ def extension_cut_needs_dot(prog, chk, rid):
         raise AnalysisBroken("File::getBaseName: no evaluated path reached the construction of the result")
     else:
         chk.ok(rid, f, "cuts of %s byte(s) seen; the longer one only behind a dot test on the name" % sorted(cuts_seen), where, "%d outcome combinations evaluated" % n_ev, evals=n_ev)
+
+
+def directory_test_follows_links(prog, chk, rid):
+    """Directory::create decides "the parent is there" and "it was there already" through Directory::exists.  A path whose last
+    component is a symbolic link to a directory IS a directory to mkdir(2) and to everything that opens files below it; a test that
+    does not follow the link (lstat) says it is not, and create() returns false although the directory exists afterwards."""
+    chk.rule(rid, "WHO/FIN: Directory::exists classifies its path with stat() (following symbolic links), returns false when that fails and "
+                  "S_ISDIR of the reported mode otherwise", floor=1)
+    fs = [f for f in prog.functions.values() if f.name == "Directory::exists" and f.blocks]
+    if not fs:
+        raise AnalysisBroken("Directory::exists not found")
+    f = fs[0]
+    st = [c for c in q.calls(f) if (f.nodes[c].get("callee") or "") in ("stat", "lstat", "fstatat", "stat64", "lstat64", "access", "opendir")]
+    if not st:
+        raise AnalysisBroken("Directory::exists: no file-status call found")
+    nofollow = [c for c in st if "lstat" in f.nodes[c]["callee"] or (f.nodes[c]["callee"] == "fstatat" and "AT_SYMLINK_NOFOLLOW" in f.r(c))]
+    if nofollow:
+        chk.bad(rid, f, "directory-test-does-not-follow-links", f.where(nofollow[0]),
+                "Directory::exists asks `%s`: for a symbolic link to a directory it reports a link, exists() is false and "
+                "Directory::create(\"link/sub\") fails (and create(\"link\") returns false although the directory exists afterwards)" % f.nodes[nofollow[0]]["callee"], evals=len(st))
+    else:
+        chk.ok(rid, f, "the directory test follows symbolic links", f.where(st[0]), "status call: %s" % f.nodes[st[0]]["callee"], evals=len(st))
